@@ -176,6 +176,11 @@ def entries(run) -> List[FuncInfo]:
         for f in run.repo.module(modname).functions.values():
             if any("register_transformer" in unparse(d) for d in f.node.decorator_list):
                 out.append(f)
+    # the validators (strict and lax) are called indirectly from Rule.parse through the compiled validator list
+    cons = run.repo.cls("utype.parser.rule", "Constraints")
+    for m in cons.methods.values():
+        if len(m.params) >= 2 and m.params[0] == "cls" and m.params[1] == "value":
+            out.append(m)
     return out
 
 
